@@ -1,4 +1,4 @@
-import RsMatterVerif.Lemmas.Expand
+import RsMatterVerif.Lemmas.ExpandMeasure
 /-!
 # C06 — every Interaction Model operation is mediated by the access check
 
@@ -141,104 +141,6 @@ theorem timed_gate_live (flag : Bool) (inst : Option Nat) (now : Nat)
       · simp [hgt] at h
       · omega
 
-/-! ## the model's access check is the specification's `permitted` -/
-
-theorem and_single_bit (a i : Nat) : a &&& 2 ^ i = 2 ^ i ∨ a &&& 2 ^ i = 0 := by
-  cases h : a.testBit i
-  · right
-    apply Nat.eq_of_testBit_eq
-    intro j
-    simp only [Nat.testBit_and, Nat.testBit_two_pow, Nat.zero_testBit]
-    by_cases hij : i = j
-    · subst hij; simp [h]
-    · simp [hij]
-  · left
-    apply Nat.eq_of_testBit_eq
-    intro j
-    simp only [Nat.testBit_and, Nat.testBit_two_pow]
-    by_cases hij : i = j
-    · subst hij; simp [h]
-    · simp [hij]
-
-theorem contains_eq_declHas (a i : Nat) : contains a (2 ^ i) = declHas a (2 ^ i) := by
-  unfold contains declHas
-  have hpos : 2 ^ i ≠ 0 := Nat.pos_iff_ne_zero.mp (Nat.two_pow_pos i)
-  rcases and_single_bit a i with h | h
-  · rw [h]; simp
-  · rw [h]; simp [hpos.symm]
-
-theorem contains_read (a : Nat) : contains a READ = declHas a Consts.accRead := contains_eq_declHas a 4
-theorem contains_write (a : Nat) : contains a WRITE = declHas a Consts.accWrite := contains_eq_declHas a 5
-theorem contains_timed (a : Nat) : contains a Consts.accTimedOnly = declHas a Consts.accTimedOnly :=
-  contains_eq_declHas a 8
-theorem contains_fabScoped (a : Nat) : contains a Consts.accFabScoped = declHas a Consts.accFabScoped :=
-  contains_eq_declHas a 6
-
-theorem find_unique {ls : List Leaf} {l : Leaf} (hl : l ∈ ls) (hnd : (ls.map (·.id)).Nodup) :
-    ls.find? (fun a => a.id == l.id) = some l := by
-  induction ls with
-  | nil => cases hl
-  | cons x xs ih =>
-    simp only [List.map_cons, List.nodup_cons, List.mem_map, not_exists, not_and] at hnd
-    rcases List.mem_cons.mp hl with rfl | hl'
-    · simp
-    · have : x.id ≠ l.id := fun h => hnd.1 l hl' h.symm
-      rw [List.find?_cons_of_neg (by simpa using this)]
-      exact ih hl' hnd.2
-
-/-- under the hypotheses of C05, the code's decision for a request equals the specification's -/
-theorem allow_eq_grantedB (fabrics : List Fabric) (req : AccessReq)
-    (hwf : WF fabrics) (hc : CanonicalPrivs fabrics) (hop : ReadOrWrite req) :
-    allow fabrics req = grantedB fabrics req := by
-  have h1 := C05.allow_iff_granted fabrics req hwf hc hop
-  have h2 := C05.grantedB_iff fabrics req
-  cases ha : allow fabrics req <;> cases hg : grantedB fabrics req <;> simp_all
-
-/-- **The access check of the code is the `permitted` of the specification** (through C05's
-`allow_iff_granted`), for every existing leaf of a well-formed cluster table. -/
-theorem checkAccess_eq_permitted (ctx : Ctx) (op : Operation) (e : Endpoint) (c : Cluster) (l : Leaf)
-    (hwf : WF ctx.fabrics) (hc : CanonicalPrivs ctx.fabrics)
-    (hl : l ∈ (if op = .invoke then c.cmds else c.attrs))
-    (hnd : ((if op = .invoke then c.cmds else c.attrs).map (·.id)).Nodup) :
-    checkAccess ctx op e c l.id = (match permitted ctx op e c l with
-      | none => .ok ()
-      | some s => .error s) := by
-  cases op with
-  | read =>
-    simp only [reduceCtorEq, if_false] at hl hnd
-    unfold checkAccess checkAttrAccess permitted
-    simp only [find_unique hl hnd, Option.map_some, Option.getD_some, Bool.false_and, Bool.false_eq_true,
-      if_false, contains_read, beq_self_eq_true, if_true]
-    rw [allow_eq_grantedB _ _ hwf hc ⟨.read, rfl⟩]
-    cases declHas l.access Consts.accRead <;>
-      cases grantedB ctx.fabrics (mkReq ctx e.id c.id l.id e.deviceTypes READ l.access) <;> simp
-  | write =>
-    simp only [reduceCtorEq, if_false] at hl hnd
-    unfold checkAccess checkAttrAccess permitted
-    simp only [find_unique hl hnd, Option.map_some, Option.getD_some, Bool.true_and, if_true,
-      contains_write, contains_timed, reduceCtorEq, beq_iff_eq, if_false]
-    rw [allow_eq_grantedB _ _ hwf hc ⟨.write, rfl⟩]
-    cases ctx.timed <;> cases declHas l.access Consts.accTimedOnly <;>
-      cases declHas l.access Consts.accWrite <;>
-      cases grantedB ctx.fabrics (mkReq ctx e.id c.id l.id e.deviceTypes WRITE l.access) <;> simp
-  | invoke =>
-    simp only [if_true] at hl hnd
-    unfold checkAccess checkCmdAccess permitted
-    simp only [find_unique hl hnd, Option.map_some, Option.getD_some, contains_timed, contains_fabScoped,
-      reduceCtorEq, beq_iff_eq, if_false]
-    rw [allow_eq_grantedB _ _ hwf hc ⟨.write, rfl⟩]
-    cases ctx.timed <;> cases declHas l.access Consts.accTimedOnly <;>
-      cases declHas l.access Consts.accFabScoped <;>
-      cases hf : (ctx.accessor.fabIdx == 0) <;>
-      cases grantedB ctx.fabrics (mkReq ctx e.id c.id l.id e.deviceTypes WRITE l.access) <;> simp
-
-theorem nodeWF_tables {node : Node} (h : nodeWF node = true) {e : Endpoint} (he : e ∈ node)
-    {c : Cluster} (hc : c ∈ e.clusters) :
-    (c.attrs.map (·.id)).Nodup ∧ (c.cmds.map (·.id)).Nodup := by
-  unfold nodeWF at h
-  simp only [Bool.and_eq_true, List.all_eq_true, decide_eq_true_iff] at h
-  exact (h.2 e he).2 c hc
-
 /-- **Every expanded item is permitted by the specification.** On a well-formed node and ACL state,
 each item of the expansion is an enabled leaf of the node that the requester can reach and for which
 the specification's `permitted` (operation offered, timed / fabric-scoped marks honoured, access
@@ -275,12 +177,6 @@ theorem expanded_items_permitted (ctx : Ctx) (op : Operation) (node : Node) (pat
 
 /-! ## concrete paths: equality with the specification -/
 
-/-- the answer list of a concrete path `p` for an outcome of `next_for_path` -/
-def outs (p : Path) : PathOutcome → List Out
-  | .item e c l a => [.item e c l false a]
-  | .done => []
-  | .err s => [.status p s]
-
 theorem expand_single_concrete (ctx : Ctx) (op : Operation) (node : Node) (p : Path) (fuel : Nat)
     (hw : isWildcard p = false) :
     expand ctx op node [p] (fuel + 2) = outs p (nextForPath ctx op node p {} none).outcome := by
@@ -298,18 +194,6 @@ theorem expand_single_concrete (ctx : Ctx) (op : Operation) (node : Node) (p : P
     simp only [PathRes.outcome, outs]
     unfold run
     simp [next]
-
-theorem isEndpointAccessible_eq_reachesB (fabrics : List Fabric) (a : Accessor) (ep : Nat) (hwf : WF fabrics) :
-    isEndpointAccessible fabrics a ep = reachesB fabrics a ep := by
-  have h1 := C05.group_reaches_only_member_endpoints fabrics a ep hwf
-  have h2 := C05.reachesB_iff fabrics a ep
-  cases h : isEndpointAccessible fabrics a ep <;> cases h' : reachesB fabrics a ep <;> simp_all
-
-theorem find_unique_filter {ls : List Leaf} {l : Leaf} (hl : l ∈ ls.filter (·.enabled))
-    (hnd : (ls.map (·.id)).Nodup) :
-    (ls.filter (·.enabled)).find? (fun a => a.id == l.id) = some l := by
-  apply find_unique hl
-  exact List.Nodup.sublist (List.Sublist.map _ List.filter_sublist) hnd
 
 /-- **A request consisting of one concrete path is answered exactly as the specification says**:
 the element, nothing (rejected by the caller's filter), or the single status of the first failing
@@ -376,14 +260,67 @@ theorem concrete_path_expected (ctx : Ctx) (op : Operation) (node : Node) (p : P
           | some s => simp [outs, Except.map]
         · simp [hfil, outs]
 
-/-- The full statement of C06 for the expansion: the answers are exactly the specification's list.
-Evaluated by the oracle on every generated request (no counterexample); the soundness half is the
-theorems above, the completeness half (every permitted element is answered, a denied concrete path
-gets exactly its status) is not proved here. -/
+/-- The full statement of C06 for the expansion: the answers are exactly the specification's list
+(once the run has ended; `fuel` only bounds the number of `next` calls). -/
 def C06_full : Prop :=
   ∀ (ctx : Ctx) (op : Operation) (node : Node) (paths : List Path),
     nodeWF node = true → WF ctx.fabrics → CanonicalPrivs ctx.fabrics →
     ∃ fuel, ∀ fuel' ≥ fuel, expand ctx op node paths fuel' = expected ctx op node paths
+
+/-- **The expansion equals the specification** — for every node with `Node`'s documented invariants,
+every ACL state, requester and list of paths (any order, repeats, wildcards and concrete paths
+mixed): every existing, matching, reachable, permitted leaf is yielded exactly once per requesting
+path, in node order; every concrete path gets exactly its item / status / nothing (filtered);
+nothing else comes out. The run ends after `|expected| + 1` calls of `next`. Uses the transparency
+of the last-authorised cache under a fixed ACL state (`leafCheck_cache`). -/
+theorem expansion_eq_expected (ctx : Ctx) (op : Operation) (node : Node) (paths : List Path)
+    (hn : nodeWF node = true) (hwf : WF ctx.fabrics) (hc : CanonicalPrivs ctx.fabrics)
+    (fuel : Nat) (hf : (expected ctx op node paths).length < fuel) :
+    expand ctx op node paths fuel = expected ctx op node paths :=
+  run_spec hn hwf hc fuel _ _ (pend_init ctx op node paths) hf
+
+theorem C06_full_holds : C06_full := fun ctx op node paths hn hwf hc =>
+  ⟨(expected ctx op node paths).length + 1, fun fuel' h =>
+    expansion_eq_expected ctx op node paths hn hwf hc fuel' (by omega)⟩
+
+/-- completeness, spelled out: an element the specification lists for some requested path is
+yielded -/
+theorem permitted_items_yielded (ctx : Ctx) (op : Operation) (node : Node) (paths : List Path)
+    (hn : nodeWF node = true) (hwf : WF ctx.fabrics) (hc : CanonicalPrivs ctx.fabrics)
+    (p : Path) (hp : p ∈ paths) (o : Out) (ho : o ∈ expectedItem ctx op node p)
+    (fuel : Nat) (hf : (expected ctx op node paths).length < fuel) :
+    o ∈ expand ctx op node paths fuel := by
+  rw [expansion_eq_expected ctx op node paths hn hwf hc fuel hf]
+  exact List.mem_flatMap.mpr ⟨p, hp, ho⟩
+
+/-! ## termination: the driver's number of `next` calls is never reached -/
+
+/-- **The expander terminates.** On every node whose endpoints are sorted by id (the invariant
+`resume_endpoint_index` debug-asserts) — whatever the ACL state, the cache, duplicate cluster / leaf
+ids, the request — the three cursors decrease lexicographically with every yield
+(`endpointLoop_yield_measure`), so that after `fuelBound` calls of `next` the run has ended: more
+fuel gives the same list. -/
+theorem expand_terminates (ctx : Ctx) (op : Operation) (node : Node) (paths : List Path)
+    (hs : (node.map (·.id)).Pairwise (· < ·)) (fuel : Nat) (hf : fuelBound op node paths ≤ fuel) :
+    expand ctx op node paths fuel = expand ctx op node paths (fuelBound op node paths) :=
+  run_stable hs _ _ (by simp [stMeasure, fuelBound]) _ hf
+
+/-- … and the number of answers stays below that bound for every fuel -/
+theorem expand_length_lt_bound (ctx : Ctx) (op : Operation) (node : Node) (paths : List Path)
+    (hs : (node.map (·.id)).Pairwise (· < ·)) (fuel : Nat) :
+    (expand ctx op node paths fuel).length < fuelBound op node paths := by
+  have := run_length_le (ctx := ctx) (op := op) hs fuel { items := paths }
+  simp only [stMeasure, fuelBound] at this ⊢
+  unfold expand
+  omega
+
+/-- with the driver's fuel the expansion is the specification's list (in scope of `C06_full`) -/
+theorem expand_at_bound_eq_expected (ctx : Ctx) (op : Operation) (node : Node) (paths : List Path)
+    (hn : nodeWF node = true) (hwf : WF ctx.fabrics) (hc : CanonicalPrivs ctx.fabrics) :
+    expand ctx op node paths (fuelBound op node paths) = expected ctx op node paths := by
+  obtain ⟨f, hf⟩ := C06_full_holds ctx op node paths hn hwf hc
+  rw [← expand_terminates ctx op node paths (nodeWF_sorted hn) (max f (fuelBound op node paths)) (by omega)]
+  exact hf _ (by omega)
 
 /-! ## non-vacuity -/
 
@@ -451,5 +388,13 @@ example : expand (demoCtx false) .read demoNode [conc 0 31 0] 2 = expectedItem (
         subst hf
         simp only [List.mem_cons, List.not_mem_nil, or_false] at he
         subst he; exact ⟨.manage, rfl⟩)
+
+/-- the hypotheses of `expansion_eq_expected` / `expand_terminates` hold for the demo request, and
+the bound is a concrete number -/
+example : fuelBound .read demoNode [wild, conc 0 31 0] = 19 := by decide
+example : (demoNode.map (·.id)).Pairwise (· < ·) := by decide
+example : expand (demoCtx false) .read demoNode [wild, conc 0 31 0, wild] (fuelBound .read demoNode [wild, conc 0 31 0, wild]) =
+    [.item 1 6 0 true false, .item 1 6 1 true false, .status (conc 0 31 0) .unsupportedAccess,
+     .item 1 6 0 true false, .item 1 6 1 true false] := by decide
 
 end C06
